@@ -55,7 +55,6 @@ package sharedfile
 //gvc:  monitor s invariant idle: s.refs == 0 && s.file != nil && !s.closed ==> s.pool != nil || s.timer != nil
 //gvc:  ensures handed: err == nil ==> f != nil
 //gvc:  sink Forget requires terminal: s.closed
-//gvc:  sink Unlock#3 requires pinned: s.refs > 0 && s.file != nil
 //gvc:  sink Touch requires after_pin: calls("Unlock") >= 1 && arg0 == s
 //gvc:end
 
